@@ -1,6 +1,7 @@
 package gen
 
 import (
+	"sort"
 	"strconv"
 
 	"github.com/Oneledger/protocol/data/governance"
@@ -28,6 +29,22 @@ func MempoolOnlyProposals(c *Ctx) (out []Tx) {
 				continue
 			}
 			out = append(out, e.txCreate("PROPOSAL_CREATE/mempool-only-"+cc.Cat, m, proposer))
+		}
+		// finalisation of proposals that have passed and are waiting for the node's own end-of-block
+		// finalisation: the public PROPOSAL_FINALIZE transaction, checked in the mempool only
+		var ids []string
+		e.ps.WithPrefixType(governance.ProposalStatePassed).Iterate(func(id governance.ProposalID, p *governance.Proposal) bool {
+			ids = append(ids, string(id))
+			return false
+		})
+		e.ps.WithPrefixType(governance.ProposalStateActive)
+		sort.Strings(ids)
+		for i, id := range ids {
+			if i >= 3 {
+				break
+			}
+			who := e.anyPayer()
+			out = append(out, e.txFinalize("PROPOSAL_FINALIZE/mempool-only", id, who))
 		}
 	})
 	return out
